@@ -483,6 +483,7 @@ class PageXMLTableCell(PageXMLDoc):
                          reading_order_attributes=None, orientation=orientation)
         self.main_type = 'table_cell'
         self.lines: List[PageXMLTextLine] = lines if lines is not None else []
+        self.set_as_parent(self.lines)
         # Initial value is concatenated text of lines, but can be overwritten by user
         # with e.g. interpreted/evaluated text
         self.value = " ".join([line.text for line in self.lines])
